@@ -350,7 +350,8 @@ pub fn run(cfg: &Cfg) -> Report {
         // three-digit numbers; Display-driven strings (collect_str), also with a Display that carries on after a
         // failed piece, swept over every buffer length
         for len in 0..=(if miri { 70usize } else { 1100 }) {
-            if !mine(cfg) {
+            // (under Miri the lengths are dealt out one by one: blocks of 1024 would all land on the first shard)
+            if (miri && !cfg.mine(len as u64)) || (!miri && !mine(cfg)) {
                 continue;
             }
             let bytes: Vec<u8> = (0..len).map(|i| [7u8, 42, 255, 0, 9, 10, 99, 100, 200][(i + len) % 9]).collect();
@@ -394,7 +395,7 @@ pub fn run(cfg: &Cfg) -> Report {
             ctx.cmp_hook(&V::Map(vec![(V::I128(x), V::U128(x as u128)), (V::U64(x as u64), V::I64(x as i64))], true, true), "int-boundary-keys");
         }
         // (5) floats
-        let nf = if miri { cfg.n(160, 3_000) } else { cfg.n(2_000_000, 40_000_000) };
+        let nf = if miri { cfg.n(100, 3_000) } else { cfg.n(2_000_000, 40_000_000) };
         let mut rng = cfg.rng(31);
         for _ in 0..nf {
             ctx.cmp_hook(&V::F64(rand_f64(&mut rng)), "f64");
@@ -411,11 +412,12 @@ pub fn run(cfg: &Cfg) -> Report {
             ctx.rep.add("f32_bit_patterns_covered", hi - lo);
         }
         // (6) random trees, hook path + per-length sweep
-        let nt = if miri { cfg.n(160, 2_000) } else { cfg.n(300_000, 20_000_000) };
+        let nt = if miri { cfg.n(70, 2_000) } else { cfg.n(300_000, 20_000_000) };
         let opts = GenOpts { bad_key_one_in: 30, fail_one_in: 200 };
         let mut rng = cfg.rng(32);
         for i in 0..nt {
-            let d = rng.below(7);
+            // (under Miri: shallower trees, and the per-length sweep - quadratic in the length - only for short encodings)
+            let d = if miri { rng.below(5) } else { rng.below(7) };
             let v = rand_tree(&mut rng, d, &opts);
             if has_fail(&v) {
                 // both must refuse
@@ -427,7 +429,7 @@ pub fn run(cfg: &Cfg) -> Report {
             }
             ctx.rep.distinct.insert(fnv(format!("{v:?}").as_bytes()));
             ctx.cmp_hook(&v, "trees");
-            if i % (if miri { 10 } else { 16 }) == 0 {
+            if i % (if miri { 10 } else { 16 }) == 0 && (!miri || serde_json::to_vec(&v).map_or(0, |b| b.len()) <= 300) {
                 ctx.sweep(&v);
             }
             if i < 3 {
